@@ -15,6 +15,7 @@ CLAIMED = {
  "C08": ("E1", "Every directive form (4 spellings, LF and CRLF files) before every statement kind, at three positions among neighbours, with / without `;` and trailing comment, at nesting depth 0-2; `ignore start/end` around every contiguous sub-sequence; ignored table fields; x collapse / line endings / sort / indent / call_parentheses x every width. The source slice of each ignored node must occur verbatim and in order; every other statement must come out as when formatted on its own.", NOTE, TECH + ", verbatim-slice oracle + differential 'neighbours still formatted' oracle", "6/C08"),
  "C09": ("E1", "Statement sequences and block statements x EVERY pair of range points (start / middle / last byte / end of every token and comment, plus open-ended, inverted and out-of-bounds ranges) x width classes; require blocks with sort_requires on. Text of everything outside the in-range statements must occur unchanged and in order; with no statement in range the text up to the last token is identical; top-level statements wholly inside equal the whole-file formatting.", NOTE, TECH + ", out-of-range text preservation oracle over all range-point pairs", "6/C09"),
  "C10": ("E1", "The statement catalogue (short and long names), comments in every gap (multi-line and own-line kinds), and their F-WS renderings (whole-file CRLF, mixed endings, space / mixed indentation, 7 end-of-file variants, code-free files) x line_endings x indent_type x indent_width x every width: outside string literals every line break is the configured one, no stray CR, indentation is tabs-only or a multiple of indent_width spaces (block comment interiors exempt), and the output ends with exactly one line ending.", NOTE, TECH + ", byte-level whitespace oracle on the independent lexer's token map", "6/C10"),
+ "C11": ("E1", "Every call form (5 callees x 18 argument shapes x 9 following suffixes, written with and without parentheses, as statement and as value) and every function header form x quote_style x call_parentheses x space_after_function_names (full 80-point product in the thorough tier) x every width, plus every string body up to the length bound x 4 quote styles: each string token, call site and function header of the re-parsed output is judged against the rule for its option value. Not demanded (the statement does not): parentheses after an index/method follows, parentheses that carry a comment, spacing when something other than a name precedes `(`.", NOTE, TECH + ", per-token / per-call-site rule oracle on the re-parsed output", "6/C11"),
  "C12": ("E1", "All sequences (quick <= 3, thorough <= 4) over require / GetService / typed / two-name / non-require / call statements with duplicate and mixed-case names, x one (thorough: two) separator deviation (blank line, comment line, same-line comments, ignore directives / regions), sort on and off: the output statements (by normal form) must be a permutation that only reorders within one block, stable by NAME, blocks with an ignored member untouched, comments preserved.", NOTE, TECH + ", reference model of the documented sorting rule (accepting both readings of a comment line as separator)", "6/C12"),
  "C06": ("E1", "Every state reached by the exploration (program, configuration, width) is formatted a second time with the same configuration and must be a fixpoint, byte for byte.", NOTE, TECH + ", second transition must be a self-loop", "6/C06"),
  "C07": ("E1", "Every transition runs under catch_unwind with a wall-clock bound; outcome must be Ok for text the parser accepts and ParseError for text it rejects; panics, other errors, false successes and blow-ups are violations.", NOTE, TECH + ", outcome oracle on valid and invalid inputs", "6/C07"),
